@@ -5,7 +5,9 @@ import (
 	"fmt"
 	"hash/fnv"
 	"reflect"
+	"sort"
 	"strings"
+	"time"
 )
 
 var NoAttachedGoStruct = fmt.Errorf("hash has no attach Go struct")
@@ -686,7 +688,19 @@ func (h *SexpHash) FillHashFromShadow(env *Zlisp, src interface{}) error {
 	for i, det := range h.DetOrder {
 		_ = i
 		//Q("\n looking at det for %s; %v-th entry in h.DetOrder\n", det.FieldJsonTag, i)
-		goField := vaSrc.Field(det.FieldNum)
+		if det.StructField.Anonymous {
+			// an embedded struct: its fields are listed on their own
+			continue
+		}
+		// drill down through embedded structs, as SexpToGoStructs does;
+		// FieldNum alone is the index within the innermost struct.
+		goField := vaSrc
+		for _, p := range det.EmbedPath {
+			goField = goField.Field(p.ChildFieldNum)
+		}
+		if !goField.CanInterface() {
+			continue // unexported
+		}
 		val, err := fillHashHelper(goField.Interface(), 0, env, false)
 		if err != nil {
 			//Q("got err='%s' back from fillHashhelper", err)
@@ -707,6 +721,12 @@ func (h *SexpHash) FillHashFromShadow(env *Zlisp, src interface{}) error {
 // for all Go structs
 func fillHashHelper(r interface{}, depth int, env *Zlisp, preferSym bool) (Sexp, error) {
 	//Q("fillHashHelper() at depth %d, decoded type is %T\n", depth, r)
+
+	// a nil pointer or nil interface is nil on the script side too
+	if rv := reflect.ValueOf(r); !rv.IsValid() ||
+		((rv.Kind() == reflect.Ptr || rv.Kind() == reflect.Interface) && rv.IsNil()) {
+		return SexpNull, nil
+	}
 
 	// check for one of our registered structs
 
@@ -824,8 +844,64 @@ func fillHashHelper(r interface{}, depth int, env *Zlisp, preferSym bool) (Sexp,
 	case bool:
 		return &SexpBool{Val: val}, nil
 
+	case time.Time:
+		// unchanged: a time field comes back as nil (callgo_test.go expects that)
+		return SexpNull, nil
+
 	default:
 		//Q("unknown type in type switch, val = %#v.  type = %T.\n", val, val)
+		// the remaining field kinds, by reflection: slices, string-keyed
+		// maps, struct values of registered types, other number kinds.
+		rv := reflect.ValueOf(r)
+		switch rv.Kind() {
+		case reflect.Slice, reflect.Array:
+			slice := make([]Sexp, 0, rv.Len())
+			for i := 0; i < rv.Len(); i++ {
+				sx2, err := fillHashHelper(rv.Index(i).Interface(), depth+1, env, preferSym)
+				if err != nil {
+					return SexpNull, err
+				}
+				slice = append(slice, sx2)
+			}
+			return &SexpArray{Val: slice, Env: env}, nil
+		case reflect.Map:
+			if rv.Type().Key().Kind() != reflect.String {
+				break
+			}
+			keys := make([]string, 0, rv.Len())
+			for _, k := range rv.MapKeys() {
+				keys = append(keys, k.String())
+			}
+			sort.Strings(keys)
+			pairs := make([]Sexp, 0, 2*len(keys))
+			for _, k := range keys {
+				sx2, err := fillHashHelper(rv.MapIndex(reflect.ValueOf(k).Convert(rv.Type().Key())).Interface(), depth+1, env, preferSym)
+				if err != nil {
+					return SexpNull, err
+				}
+				pairs = append(pairs, env.MakeSymbol(k), sx2)
+			}
+			return MakeHash(pairs, "hash", env)
+		case reflect.Struct:
+			// a registered struct held by value: convert a copy through its
+			// pointer type (other struct kinds stay nil, as before)
+			pv := reflect.New(rv.Type())
+			for _, factory := range GoStructRegistry.Registry {
+				st, err := factory.Factory(env, nil)
+				if err == nil && st != nil && reflect.TypeOf(st) == pv.Type() {
+					pv.Elem().Set(rv)
+					return fillHashHelper(pv.Interface(), depth+1, env, preferSym)
+				}
+			}
+		case reflect.Int8, reflect.Int16:
+			return &SexpInt{Val: rv.Int()}, nil
+		case reflect.Uint, reflect.Uint8, reflect.Uint16, reflect.Uint32:
+			return &SexpInt{Val: int64(rv.Uint())}, nil
+		case reflect.Uint64:
+			return &SexpUint64{Val: rv.Uint()}, nil
+		case reflect.Float32:
+			return &SexpFloat{Val: rv.Float()}, nil
+		}
 	}
 
 	return SexpNull, nil
